@@ -34,9 +34,10 @@ def qconst(v):
 class Env:
     """names of the Python scope -> (Coq term, type); types: Q, Z (counts), optQ, mix, optmix"""
 
-    def __init__(self, names, attrs):
+    def __init__(self, names, attrs, exprs=None):
         self.names = names
         self.attrs = attrs          # dotted attribute path -> (term, type)
+        self.exprs = exprs or {}    # exact source text of a sub-expression -> (term, type): library calls with a fixed meaning
 
     def path(self, e):
         parts = []
@@ -50,9 +51,13 @@ class Env:
 
     def term(self, e):
         """(coq, type)"""
+        if ast.unparse(e) in self.exprs:
+            return self.exprs[ast.unparse(e)]
         if isinstance(e, ast.Constant):
             if e.value is None:
                 return ("None", "none")
+            if isinstance(e.value, bool):
+                return ("true" if e.value else "false", "bool")
             if isinstance(e.value, int) and not isinstance(e.value, bool):
                 return (str(e.value), "lit")
             return (qconst(e.value), "Q")
@@ -92,6 +97,8 @@ class Env:
 
     def truth(self, e):
         """Python truth value of an expression as a Coq bool"""
+        if ast.unparse(e) in self.exprs and self.exprs[ast.unparse(e)][1] == "bool":
+            return self.exprs[ast.unparse(e)][0]
         if isinstance(e, ast.BoolOp):
             op = " && " if isinstance(e.op, ast.And) else " || "
             return "(" + op.join(self.truth(v) for v in e.values) + ")"
@@ -100,8 +107,11 @@ class Env:
         if isinstance(e, ast.Compare) and len(e.ops) == 1:
             (a, ta), (b, tb) = self.term(e.left), self.term(e.comparators[0])
             o = type(e.ops[0])
+            if ta == "str" and tb == "str" and o in (ast.Eq, ast.NotEq):
+                t = f"(str_eqb {a} {b})"
+                return t if o is ast.Eq else f"(negb {t})"
             if o in (ast.Is, ast.IsNot):
-                if tb != "none" or ta not in ("optQ", "optmix"):
+                if tb != "none" or not ta.startswith("opt"):
                     raise Unsupported("identity test other than with None")
                 t = f"(match {a} with Some _ => false | None => true end)"
                 return t if o is ast.Is else f"(negb {t})"
@@ -110,6 +120,8 @@ class Env:
             if {ta, tb} <= {"Q", "lit"} and "Q" in (ta, tb) and o in CMPQ:
                 return "(" + CMPQ[o].format(a=a, b=b) + ")"
             raise Unsupported(f"comparison of {ta} with {tb}")
+        if isinstance(e, ast.Compare) and ast.unparse(e) in self.exprs:
+            return self.exprs[ast.unparse(e)][0]
         t, ty = self.term(e)
         if ty == "bool":
             return t
@@ -117,7 +129,7 @@ class Env:
             return f"(truthy {t})"
         if ty == "optQ":
             return f"(otruthy {t})"
-        if ty == "optmix":        # a Mixture object has neither __bool__ nor __len__: truthy iff it is not None
+        if ty.startswith("opt") and ty != "optQ":   # objects of this library define neither __bool__ nor __len__: truthy iff not None
             return f"(match {t} with Some _ => true | None => false end)"
         raise Unsupported(f"truth value of {ty}")
 
@@ -125,8 +137,16 @@ class Env:
 class Cut(ast.NodeTransformer):
     """replaces the decision expressions (If.test) and all messages by placeholders, records the expressions"""
 
-    def __init__(self):
+    def __init__(self, returns=False):
         self.tests = []
+        self.returns = returns      # also cut the expressions of `return <expr>` (recorded in self.rets)
+        self.rets = []
+
+    def visit_Return(self, node):
+        if self.returns and node.value is not None and not isinstance(node.value, (ast.Name, ast.Constant)):
+            self.rets.append(node.value)
+            return ast.Return(value=ast.Name(id=f"RET{len(self.rets) - 1}", ctx=ast.Load()))
+        return node
 
     def visit_If(self, node):
         self.tests.append(node.test)
@@ -149,6 +169,14 @@ class Cut(ast.NodeTransformer):
         if isinstance(v, ast.Call) and isinstance(v.func, ast.Name) and v.func.id == "warn":
             return ast.Expr(value=ast.Name(id="warn", ctx=ast.Load()))
         return self.generic_visit(node)
+
+
+def same_skeleton(got_text, expected_text):
+    """compared as syntax trees (the text form of ast.unparse differs between Python versions)"""
+    try:
+        return ast.dump(ast.parse(got_text)) == ast.dump(ast.parse(expected_text))
+    except SyntaxError:
+        return False
 
 
 def skeleton(fn):
@@ -259,7 +287,7 @@ def translate_sys(system_py, mixture_py):
     if [a.arg for a in fn.args.args] != ["molecules", "system_molweight"] or fn.args.defaults or fn.args.kwonlyargs or fn.args.vararg or fn.args.kwarg:
         raise Unsupported("signature of _estimate_system_molecular_weight")
     sk, tests = skeleton(fn)
-    if sk != ESTIMATE_SKELETON:
+    if not same_skeleton(sk, ESTIMATE_SKELETON):
         import difflib
         d = [l for l in difflib.unified_diff(ESTIMATE_SKELETON.split("\n"), sk.split("\n"), lineterm="", n=0) if not l.startswith(("---", "+++", "@@"))]
         raise Unsupported("statement skeleton of _estimate_system_molecular_weight changed: " + " / ".join(d[:6]))
@@ -297,9 +325,9 @@ def translate_sys(system_py, mixture_py):
         raise Unsupported("setter signatures")
     skr, tr = skeleton(rel)
     sks, ts = skeleton(sysm)
-    if skr != SET_REL_SKELETON:
+    if not same_skeleton(skr, SET_REL_SKELETON):
         raise Unsupported("statement skeleton of Mixture.relative_mass.setter changed: " + skr.replace("\n", " / ")[:300])
-    if sks != SET_SYS_SKELETON:
+    if not same_skeleton(sks, SET_SYS_SKELETON):
         raise Unsupported("statement skeleton of Mixture.system_mass.setter changed: " + sks.replace("\n", " / ")[:300])
     selfattrs = {"self.absolute_mass": ("(x_abs m)", "optQ"), "self.relative_mass": ("(x_rel m)", "optQ"), "self.system_mass": ("(x_sys m)", "optQ"),
                  "self._absolute_mass": ("(x_abs m)", "optQ"), "self._relative_mass": ("(x_rel m)", "optQ"), "self._system_mass": ("(x_sys m)", "optQ")}
@@ -403,7 +431,7 @@ def translate_sysgen(system_py):
         if [a.arg for a in fn.args.args] != args or [ast.unparse(d) for d in fn.args.defaults] != defaults or fn.args.kwonlyargs or fn.args.vararg or fn.args.kwarg:
             raise Unsupported(f"signature of System.{name}")
         sk, ts = skeleton(fn)
-        if sk != skel:
+        if not same_skeleton(sk, skel):
             import difflib
             d = [l for l in difflib.unified_diff(skel.split("\n"), sk.split("\n"), lineterm="", n=0) if not l.startswith(("---", "+++", "@@"))]
             raise Unsupported(f"statement skeleton of System.{name} changed: " + " / ".join(d[:6]))
@@ -436,8 +464,452 @@ def translate_sysgen(system_py):
     return "\n".join(out) + "\n"
 
 
+COMPAT_IDS_SKELETON = '''compatible_idx = []
+for (i, other) in enumerate(bond_descriptors):
+    if TEST0:
+        compatible_idx.append(i)
+return np.asarray(compatible_idx, dtype=int)'''
+
+CHOOSE_SKELETON = '''weights = []
+compatible_idx = get_compatible_bond_descriptor_ids(bond_descriptors, bond)
+for i in compatible_idx:
+    weights.append(bond_descriptors[i].weight)
+weights = np.asarray(weights)
+if TEST0:
+    weights += 1
+weights /= np.sum(weights)
+try:
+    idx = rng.choice(compatible_idx, p=weights)
+except ValueError as exc:
+    warn
+    raise exc
+return idx'''
+
+BASE_GENERATE_SKELETON = '''if TEST0:
+    raise RuntimeError
+if TEST1:
+    if TEST2:
+        raise RuntimeError'''
+
+
+def _check_fn(fn, args, defaults, skel, nt, what):
+    if [a.arg for a in fn.args.args] != args or [ast.unparse(d) for d in fn.args.defaults] != defaults or fn.args.kwonlyargs or fn.args.vararg or fn.args.kwarg:
+        raise Unsupported(f"signature of {what}")
+    sk, ts = skeleton(fn)
+    if not same_skeleton(sk, skel):
+        import difflib
+        d = [l for l in difflib.unified_diff(skel.split("\n"), sk.split("\n"), lineterm="", n=0) if not l.startswith(("---", "+++", "@@"))]
+        raise Unsupported(f"statement skeleton of {what} changed: " + " / ".join(d[:6]))
+    if len(ts) != nt:
+        raise Unsupported(f"number of decisions in {what}")
+    return ts
+
+
+def translate_core(core_py):
+    """core.py: candidate filter, the selection law's +1 rule, the guards of BigSMILESbase.generate -> Src/SrcCore.v"""
+    mod = ast.parse(open(core_py).read())
+    ids = _check_fn(_module_fn(mod, "get_compatible_bond_descriptor_ids"), ["bond_descriptors", "bond"], [], COMPAT_IDS_SKELETON, 1, "get_compatible_bond_descriptor_ids")
+    ch = _check_fn(_module_fn(mod, "choose_compatible_weight"), ["bond_descriptors", "bond", "rng"], [], CHOOSE_SKELETON, 1, "choose_compatible_weight")
+    c = [n for n in mod.body if isinstance(n, ast.ClassDef) and n.name == "BigSMILESbase"]
+    if len(c) != 1:
+        raise Unsupported("class BigSMILESbase")
+    bg = _check_fn(_method(c[0], "generate", []), ["self", "prefix", "rng"], ["None", "_GLOBAL_RNG"], BASE_GENERATE_SKELETON, 3, "BigSMILESbase.generate")
+    env = Env({"len(compatible_idx)": ("(Z.of_nat (List.length idx))", "Z"), "len(prefix.bond_descriptors)": ("(Z.of_nat nopen)", "Z")},
+              {"bond": ("bond", "optdescr"), "self.generable": ("generable", "bool"), "prefix": ("has_prefix", "bool")},
+              {"bond is None": ("(match bond with Some _ => false | None => true end)", "bool"),
+               "bond.is_compatible(other)": ("(match bond with Some b => is_compatible b other | None => false end)", "bool"),
+               # numpy: element-wise equality with the first weight, all of them
+               "np.all(weights == weights[0])": ("(match w with [] => true | x :: _ => all_eqb x w end)", "bool")})
+    out = [
+        "(* generated by harness/translate_sys.py from core.py (get_compatible_bond_descriptor_ids, choose_compatible_weight, BigSMILESbase.generate) -- do not edit *)",
+        "From Coq Require Import List ZArith QArith Bool.",
+        "From GBS Require Import Model.PyStr Model.Num Model.Bond Model.Select Src.SrcBond.",
+        "Import ListNotations. Open Scope Q_scope.",
+        "(* is_compatible below is the function regenerated from bond.py (Src/SrcBond.v) *)",
+        f"Definition is_candidate (bond : option descr) (other : descr) : bool := {env.truth(ids[0])}.",
+        f"Definition bump_cond (idx : list nat) (w : list Q) : bool := {env.truth(ch[0])}.",
+        f"Definition base_refused (generable : bool) : bool := {env.truth(bg[0])}.",
+        f"Definition base_has_prefix (has_prefix : bool) : bool := {env.truth(bg[1])}.",
+        f"Definition base_prefix_bad (nopen : nat) : bool := {env.truth(bg[2])}.",
+    ]
+    return "\n".join(out) + "\n"
+
+
+STOCH_GENERATE_SKELETON = '''def get_start():
+    my_mol = prefix
+    if TEST0:
+        if TEST1:
+            raise RuntimeError
+        try:
+            end_bond_idx = choose_compatible_weight(self.end_bonds, None, rng)
+        except ValueError as exc:
+            warn
+            raise exc
+        start_token = self.end_tokens[self.end_bond_token_idx[end_bond_idx]]
+        if TEST2:
+            raise RuntimeError
+        my_mol = MolGen(start_token)
+    else:
+        if TEST3:
+            raise RuntimeError
+        if TEST4:
+            raise RuntimeError
+        prefix.bond_descriptors[0].transitions = self.left_terminal.transitions
+        prefix.bond_descriptors[0].weight = self.left_terminal.weight
+    return my_mol
+def generate_repeat_units_and_finalize(my_mol):
+
+    def add_repeat_unit(my_mol):
+        starting_bond_idx = choose_compatible_weight(my_mol.bond_descriptors, None, rng)
+        starting_bond = my_mol.bond_descriptors[starting_bond_idx]
+        if TEST5:
+            prob = starting_bond.transitions / starting_bond.weight
+            connecting_bond_idx = rng.choice(range(len(prob)), p=prob)
+        else:
+            connecting_bond_idx = choose_compatible_weight(self.repeat_bonds, starting_bond, rng)
+        if TEST6:
+            token = self.repeat_tokens[self.repeat_bond_token_idx[connecting_bond_idx]]
+            connecting_bond = self.repeat_bonds[connecting_bond_idx]
+        else:
+            connecting_bond_idx -= len(self.repeat_bonds)
+            connecting_bond = self.end_bonds[connecting_bond_idx]
+            token = self.end_tokens[self.end_bond_token_idx[connecting_bond_idx]]
+        connecting_bond_idx = token.bond_descriptors.index(connecting_bond)
+        new_mol = MolGen(token)
+        my_mol = my_mol.attach_other(starting_bond_idx, new_mol, connecting_bond_idx)
+        return my_mol
+    starting_mol_weight = rdDescriptors.HeavyAtomMolWt(my_mol.mol)
+    target_mol_weight = self.distribution.draw_mw(rng)
+    while TEST7:
+        my_mol = add_repeat_unit(my_mol)
+        if TEST8:
+            warn
+            finalized_my_mol = my_mol
+            break
+        finalized_my_mol = finalize_mol(copy.deepcopy(my_mol))
+        if TEST9:
+            break
+    return finalized_my_mol
+def finalize_mol(my_mol):
+    terminal_bond = None
+    if TEST10:
+        invert_text = _create_compatible_bond_text(self.right_terminal)
+        invert_terminal = BondDescriptor(invert_text, 0, '', None)
+        terminal_bond_idx = choose_compatible_weight(my_mol.bond_descriptors, invert_terminal, rng)
+        terminal_bond = my_mol.bond_descriptors[terminal_bond_idx]
+        del my_mol.bond_descriptors[terminal_bond_idx]
+    while TEST11:
+        starting_bond_idx = choose_compatible_weight(my_mol.bond_descriptors, None, rng)
+        starting_bond = my_mol.bond_descriptors[starting_bond_idx]
+        connecting_bond_idx = choose_compatible_weight(self.end_bonds, starting_bond, rng)
+        token = self.end_tokens[self.end_bond_token_idx[connecting_bond_idx]]
+        connecting_bond = self.end_bonds[connecting_bond_idx]
+        connecting_bond_idx = token.bond_descriptors.index(connecting_bond)
+        new_mol = MolGen(token)
+        my_mol = my_mol.attach_other(starting_bond_idx, new_mol, connecting_bond_idx)
+    if TEST12:
+        my_mol.bond_descriptors.append(terminal_bond)
+    return my_mol
+super().generate(prefix, rng)
+my_mol = get_start()
+my_mol = generate_repeat_units_and_finalize(my_mol)
+return my_mol'''
+
+STOCH_GENERABLE_SKELETON = '''for bond in self.bond_descriptors:
+    if TEST0:
+        return False
+for token in self.repeat_tokens + self.end_tokens:
+    if TEST1:
+        return False
+if TEST2:
+    return False
+if TEST3:
+    return False
+return self._generable'''
+
+TOKEN_GENERABLE_SKELETON = '''for bond in self.bond_descriptors:
+    if TEST0:
+        return False
+return True'''
+
+MOLECULE_GENERABLE_SKELETON = '''if TEST0:
+    if TEST1:
+        return False
+for ele in self._elements:
+    if TEST2:
+        return False
+return True'''
+
+MOLECULE_GENERATE_SKELETON = '''my_mol = prefix
+for element in self._elements:
+    my_mol = element.generate(my_mol, rng)
+return my_mol'''
+
+TOKEN_GENERATE_SKELETON = '''super().generate(prefix, rng)
+my_mol = MolGen(self)
+if TEST0:
+    my_idx = choose_compatible_weight(my_mol.bond_descriptors, prefix.bond_descriptors[0], rng)
+    my_mol = prefix.attach_other(0, my_mol, my_idx)
+return my_mol'''
+
+
+def _class(mod, name):
+    c = [n for n in mod.body if isinstance(n, ast.ClassDef) and n.name == name]
+    if len(c) != 1:
+        raise Unsupported("class " + name)
+    return c[0]
+
+
+def translate_gen(stochastic_py):
+    return _translate_gen_both(stochastic_py, "gen")
+
+
+def translate_generable(stochastic_py):
+    return _translate_gen_both(stochastic_py, "generable")
+
+
+def _translate_gen_both(stochastic_py, which):
+    """Stochastic.generate, SmilesToken.generate, Molecule.generate -> Src/SrcGen.v; the generable chain -> Src/SrcGenerable.v.
+    Each half checks only its own skeletons."""
+    import os
+    d = os.path.dirname(stochastic_py)
+    smod = ast.parse(open(stochastic_py).read())
+    tmod = ast.parse(open(os.path.join(d, "token.py")).read())
+    bmod = ast.parse(open(os.path.join(d, "bond.py")).read())
+    mmod = ast.parse(open(os.path.join(d, "molecule.py")).read())
+    st = _class(smod, "Stochastic")
+    tk = _class(tmod, "SmilesToken")
+    ml = _class(mmod, "Molecule")
+    env = Env({"len(start_token.bond_descriptors)": ("(Z.of_nat ntok)", "Z"), "len(prefix.bond_descriptors)": ("(Z.of_nat nopen)", "Z"),
+               "len(my_mol.bond_descriptors)": ("(Z.of_nat nopen)", "Z"), "len(self.repeat_bonds)": ("(Z.of_nat nrep)", "Z"), "connecting_bond_idx": ("(Z.of_nat k)", "Z"),
+               "starting_mol_weight": ("start", "Q"), "target_mol_weight": ("T", "Q")},
+              {"my_mol": ("prefix", "optmolgen"), "starting_bond.transitions": ("(d_trans sb)", "optlist"), "terminal_bond": ("term", "optobd"),
+               "bond.generable": ("gb", "bool"), "token.generable": ("gt", "bool"), "self.distribution": ("dist", "optdist"), "self.distribution.generable": ("gd", "bool"),
+               "self.mixture": ("mix", "optmix"), "self.mixture.generable": ("gm", "bool"), "ele.generable": ("ge", "bool"), "prefix": ("prefix", "optmolgen")},
+              {"str(self.left_terminal) != '[]'": ("(negb (is_empty_terminal (s_left s)))", "bool"),          # str(d) == "[]" iff d is the empty terminal (Model/Gen.v)
+               "str(self.right_terminal) != '[]'": ("(negb (is_empty_terminal (s_right s)))", "bool"),
+               "prefix.bond_descriptors[0].generate_string(False)": ("(print_noext a)", "str"),
+               "self.left_terminal.generate_string(False)": ("(print_noext (s_left s))", "str"),
+               "rdDescriptors.HeavyAtomMolWt(my_mol.mol)": ("mass", "Q")})
+    if which == "gen":
+        g = _check_fn(_method(st, "generate", []), ["self", "prefix", "rng"], ["None", "_GLOBAL_RNG"], STOCH_GENERATE_SKELETON, 13, "Stochastic.generate")
+        tgen = _check_fn(_method(tk, "generate", []), ["self", "prefix", "rng"], ["None", "_GLOBAL_RNG"], TOKEN_GENERATE_SKELETON, 1, "SmilesToken.generate")
+        _check_fn(_method(ml, "generate", []), ["self", "prefix", "rng"], ["None", "_GLOBAL_RNG"], MOLECULE_GENERATE_SKELETON, 0, "Molecule.generate")
+        return _emit_gen([env.truth(t) for t in g], [env.truth(t) for t in tgen])
+    sg = _check_fn(_method(st, "generable", ["property"]), ["self"], [], STOCH_GENERABLE_SKELETON, 4, "Stochastic.generable")
+    tg = _check_fn(_method(tk, "generable", ["property"]), ["self"], [], TOKEN_GENERABLE_SKELETON, 1, "SmilesToken.generable")
+    mg = _check_fn(_method(ml, "generable", ["property"]), ["self"], [], MOLECULE_GENERABLE_SKELETON, 3, "Molecule.generable")
+    bd = _method(_class(bmod, "BondDescriptor"), "generable", ["property"])
+    body = [x for x in bd.body if not (isinstance(x, ast.Expr) and isinstance(x.value, ast.Constant))]
+    if [a.arg for a in bd.args.args] != ["self"] or len(body) != 1 or not isinstance(body[0], ast.Return):
+        raise Unsupported("BondDescriptor.generable is not a single return")
+    envb = Env({}, {}, {"self.weight >= 0": ("(num_ge0 (d_weight d))", "bool")})      # Python float comparison: NaN compares false (Model/Num.v)
+    bgen = envb.truth(body[0].value)
+    return _emit_generable(bgen, [env.truth(t) for t in tg], [env.truth(t) for t in sg], [env.truth(t) for t in mg])
+
+
+def _emit_gen(T, TGEN):
+    out = [
+        "(* generated by harness/translate_sys.py from stochastic.py, token.py, molecule.py (generate) -- do not edit *)",
+        "From Coq Require Import List ZArith QArith Bool.",
+        "From GBS Require Import Model.PyStr Model.Num Model.Bond Model.Select Model.Sys Model.Gen.",
+        "Import ListNotations. Open Scope Q_scope.",
+        "(* the statement skeletons of these methods are the ones Model/Gen.v was written against (checked by the translator); their decisions: *)",
+        f"Definition no_prefix (prefix : option molgen) : bool := {T[0]}.",
+        f"Definition left_expects_prefix (s : gstoch) : bool := {T[1]}.",
+        f"Definition start_token_bad (ntok : nat) : bool := {T[2]}.",
+        f"Definition prefix_open_bad (nopen : nat) : bool := {T[3]}.",
+        f"Definition prefix_mismatch (a : descr) (s : gstoch) : bool := {T[4]}.",
+        f"Definition has_list (sb : descr) : bool := {T[5]}.",
+        f"Definition is_repeat_pick (k nrep : nat) : bool := {T[6]}.",
+        f"Definition growth_loops : bool := {T[7]}.",
+        f"Definition closed_by_growth (nopen : nat) : bool := {T[8]}.",
+        f"Definition mass_exceeded (mass start T : Q) : bool := {T[9]}.",
+        f"Definition right_expects_suffix (s : gstoch) : bool := {T[10]}.",
+        f"Definition cap_continues (nopen : nat) : bool := {T[11]}.",
+        f"Definition reinsert (term : option obd) : bool := {T[12]}.",
+        f"Definition token_has_prefix (prefix : option molgen) : bool := {TGEN[0]}.",
+    ]
+    return "\n".join(out) + "\n"
+
+
+def _emit_generable(bgen, TG, SG, MG):
+    out = [
+        "(* generated by harness/translate_sys.py from bond.py, token.py, stochastic.py, molecule.py (generable) -- do not edit *)",
+        "From Coq Require Import List ZArith QArith Bool.",
+        "From GBS Require Import Model.PyStr Model.Num Model.Bond.",
+        "Import ListNotations.",
+        "(* generable: descriptor, token, stochastic object, molecule (statement skeletons checked by the translator) *)",
+        f"Definition descr_generable_src (d : descr) : bool := {bgen}.",
+        f"Definition tok_bond_bad (gb : bool) : bool := {TG[0]}.",
+        f"Definition stoch_bond_bad (gb : bool) : bool := {SG[0]}.",
+        f"Definition stoch_token_bad (gt : bool) : bool := {SG[1]}.",
+        f"Definition stoch_no_dist {{D}} (dist : option D) : bool := {SG[2]}.",
+        f"Definition stoch_dist_bad (gd : bool) : bool := {SG[3]}.",
+        f"Definition mol_has_mixture {{M}} (mix : option M) : bool := {MG[0]}.",
+        f"Definition mol_mixture_bad (gm : bool) : bool := {MG[1]}.",
+        f"Definition mol_element_bad (ge : bool) : bool := {MG[2]}.",
+    ]
+    return "\n".join(out) + "\n"
+
+
+def skeleton_r(fn):
+    c = Cut(returns=True)
+    body = [c.visit(s) for s in fn.body]
+    return "\n".join(ast.unparse(ast.fix_missing_locations(s)) for s in body if not isinstance(s, ast.Pass)), c.tests, c.rets
+
+
+PROB_INTERVAL_SKELETON = '''if TEST0:
+    return RET0
+return RET1'''
+
+PROB_BASE_SKELETON = '''if TEST0:
+    raise NotImplementedError
+if TEST1:
+    return RET0
+return RET1'''
+
+PROB_GAUSS_SKELETON = '''if TEST0:
+    return 1.0
+return RET0'''
+
+PROB_POISSON_SKELETON = '''try:
+    return RET0
+except AttributeError:
+    return RET1'''
+
+DRAW_SKELETON = '''if TEST0:
+    rng = _GLOBAL_RNG
+return RET0'''
+
+DRAW_BASE_SKELETON = '''if TEST0:
+    raise NotImplementedError
+if TEST1:
+    rng = _GLOBAL_RNG
+return RET0'''
+
+
+def translate_distlaw(distribution_py):
+    """distribution.py: the interval rule of prob_mw in every class, the point rule, the arguments handed to scipy by draw_mw,
+    the Flory-Schulz mass function and the Schulz-Zimm shape parameter -> Src/SrcDistLaw.v"""
+    mod = ast.parse(open(distribution_py).read())
+    RA = "isinstance(mw, gbigsmiles.mol_prob.RememberAdd)"
+    out = [
+        "(* generated by harness/translate_sys.py from distribution.py (prob_mw, draw_mw, flory_schulz_gen._pmf, SchulzZimm.__init__) -- do not edit *)",
+        "From Coq Require Import List ZArith QArith Qabs Bool.",
+        "From GBS Require Import Model.PyStr Model.Num Model.Bond Model.Sys.",
+        "Open Scope Q_scope.",
+        "(* cdf / point: the scipy law of the object with the object's own parameters (the keyword arguments are checked to be the object's",
+        "   fields, the same on both calls); previous / value: the two ends kept by RememberAdd *)",
+    ]
+
+    def method(cname, name):
+        r = [n for n in _class(mod, cname).body if isinstance(n, ast.FunctionDef) and n.name == name]
+        if len(r) != 1:
+            raise Unsupported(f"{cname}.{name}")
+        return r[0]
+
+    def shaped(fn, args, defaults, skel, nt, nr, what):
+        if [a.arg for a in fn.args.args] != args or [ast.unparse(d) for d in fn.args.defaults] != defaults:
+            raise Unsupported("signature of " + what)
+        sk, ts, rs = skeleton_r(fn)
+        if not same_skeleton(sk, skel) or len(ts) != nt or len(rs) != nr:
+            raise Unsupported(f"statement skeleton of {what} changed: " + sk.replace("\n", " / ")[:200])
+        return ts, rs
+
+    kw = {"Distribution": "", "FlorySchulz": ", a=self._a", "SchulzZimm": ", z=self._z, Mn=self._Mn", "LogNormal": ", M=self._M, D=self._D"}
+    point = {"Distribution": "self._distribution.pdf(mw)", "FlorySchulz": "self._distribution.pmf(int(mw), a=self._a)",
+             "SchulzZimm": "self._distribution.pmf(int(mw), z=self._z, Mn=self._Mn)", "LogNormal": "self._distribution.pdf(mw, M=self._M, D=self._D)"}
+    for cname, k in kw.items():
+        fn = method(cname, "prob_mw")
+        if cname == "Distribution":
+            ts, rs = shaped(fn, ["self", "mw"], [], PROB_BASE_SKELETON, 2, 2, cname + ".prob_mw")
+            if [ast.unparse(t) for t in ts] != ["self._distribution is None", RA]:
+                raise Unsupported("decisions of Distribution.prob_mw")
+        else:
+            ts, rs = shaped(fn, ["self", "mw"], [], PROB_INTERVAL_SKELETON, 1, 2, cname + ".prob_mw")
+            if [ast.unparse(t) for t in ts] != [RA]:
+                raise Unsupported(f"decision of {cname}.prob_mw")
+        env = Env({}, {}, {f"self._distribution.cdf(mw.value{k})": ("(cdf value)", "Q"), f"self._distribution.cdf(mw.previous{k})": ("(cdf previous)", "Q"),
+                           point[cname]: ("point", "Q")})
+        t0, ty0 = env.term(rs[0])
+        t1, ty1 = env.term(rs[1])
+        if ty0 != "Q" or ty1 != "Q":
+            raise Unsupported("interval rule type")
+        out.append(f"Definition interval_{cname} (cdf : Q -> Q) (previous value : Q) : Q := {t0}.")
+        out.append(f"Definition point_{cname} (point : Q) : Q := {t1}.")
+    # Gauss: the shortcut decision; Poisson: the base rule, with the point mass as fallback
+    ts, rs = shaped(method("Gauss", "prob_mw"), ["self", "mw"], [], PROB_GAUSS_SKELETON, 1, 1, "Gauss.prob_mw")
+    if ast.unparse(rs[0]) != "super().prob_mw(mw)":
+        raise Unsupported("Gauss.prob_mw does not defer to the base rule")
+    envg = Env({"mw": ("mw", "Q")}, {"self._sigma": ("sigma", "Q"), "self._mu": ("mu", "Q")})
+    out.append(f"Definition gauss_shortcut (mu sigma mw : Q) : bool := {envg.truth(ts[0])}.")
+    ts, rs = shaped(method("Poisson", "prob_mw"), ["self", "mw"], [], PROB_POISSON_SKELETON, 0, 2, "Poisson.prob_mw")
+    if [ast.unparse(r) for r in rs] != ["super().prob_mw(mw)", "self._distribution.pmf(int(mw))"]:
+        raise Unsupported("Poisson.prob_mw")
+    # draw_mw: one call of rvs with the object's own parameters and the caller's generator
+    draws = {"Distribution": ("self._distribution.rvs(random_state=rng)", DRAW_BASE_SKELETON, ["self._distribution is None", "rng is None"]),
+             "FlorySchulz": ("self._distribution.rvs(a=self._a, random_state=rng)", DRAW_SKELETON, ["rng is None"]),
+             "SchulzZimm": ("self._distribution.rvs(z=self._z, Mn=self._Mn, random_state=rng)", DRAW_SKELETON, ["rng is None"]),
+             "LogNormal": ("self._distribution.rvs(M=self._M, D=self._D, random_state=rng)", DRAW_SKELETON, ["rng is None"])}
+    for cname, (call, skel, tests) in draws.items():
+        ts, rs = shaped(method(cname, "draw_mw"), ["self", "rng"], ["None"], skel, len(tests), 1, cname + ".draw_mw")
+        if [ast.unparse(t) for t in ts] != tests or ast.unparse(rs[0]) != call:
+            raise Unsupported(f"{cname}.draw_mw does not draw once with the object's parameters and the caller's generator")
+    for cname in ("Gauss", "Uniform", "Poisson"):
+        if any(isinstance(n, ast.FunctionDef) and n.name == "draw_mw" for n in _class(mod, cname).body):
+            raise Unsupported(f"{cname} overrides draw_mw")
+    # Flory-Schulz mass function
+    gen = [n for n in _class(mod, "FlorySchulz").body if isinstance(n, ast.ClassDef) and n.name == "flory_schulz_gen"]
+    if len(gen) != 1:
+        raise Unsupported("flory_schulz_gen")
+    pmf = [n for n in gen[0].body if isinstance(n, ast.FunctionDef) and n.name == "_pmf"]
+    body = [x for x in pmf[0].body if not (isinstance(x, ast.Expr) and isinstance(x.value, ast.Constant))] if len(pmf) == 1 else []
+    if len(body) != 1 or not isinstance(body[0], ast.Return) or [a.arg for a in pmf[0].args.args] != ["self", "k", "a"]:
+        raise Unsupported("flory_schulz_gen._pmf")
+    out.append(f"Definition fs_pmf_src (a : Q) (k : nat) : Q := {_power_expr(body[0].value)}.")
+    # Schulz-Zimm shape parameter
+    init = method("SchulzZimm", "__init__")
+    zs = [n for n in init.body if isinstance(n, ast.Assign) and len(n.targets) == 1 and ast.unparse(n.targets[0]) == "self._z"]
+    if len(zs) != 1:
+        raise Unsupported("SchulzZimm.__init__: assignment of self._z")
+    envz = Env({}, {"self._Mn": ("Mn", "Q"), "self._Mw": ("Mw", "Q")})
+    tz, tyz = envz.term(zs[0].value)
+    out.append(f"Definition sz_shape (Mw Mn : Q) : Q := {tz}.")
+    return "\n".join(out) + "\n"
+
+
+def _power_expr(e):
+    """arithmetic over a : Q and k : nat with integer powers (a ** 2, x ** (k - 1))"""
+    if isinstance(e, ast.Name) and e.id == "a":
+        return "a"
+    if isinstance(e, ast.Name) and e.id == "k":
+        return "(inject_Z (Z.of_nat k))"
+    if isinstance(e, ast.Constant) and isinstance(e.value, int) and not isinstance(e.value, bool):
+        return qconst(e.value)
+    if isinstance(e, ast.BinOp) and type(e.op) in (ast.Add, ast.Sub, ast.Mult):
+        return f"({_power_expr(e.left)} {chr(43) if type(e.op) is ast.Add else chr(45) if type(e.op) is ast.Sub else chr(42)} {_power_expr(e.right)})"
+    if isinstance(e, ast.BinOp) and isinstance(e.op, ast.Pow):
+        return f"({_power_expr(e.left)} ^ {_zexpr(e.right)})"
+    raise Unsupported("mass function expression " + ast.dump(e)[:100])
+
+
+def _zexpr(e):
+    if isinstance(e, ast.Name) and e.id == "k":
+        return "(Z.of_nat k)"
+    if isinstance(e, ast.Constant) and isinstance(e.value, int) and not isinstance(e.value, bool):
+        return f"({e.value})%Z"
+    if isinstance(e, ast.BinOp) and type(e.op) in (ast.Add, ast.Sub):
+        return f"({_zexpr(e.left)} {chr(43) if type(e.op) is ast.Add else chr(45)} {_zexpr(e.right)})%Z"
+    raise Unsupported("exponent " + ast.dump(e)[:100])
+
+
 if __name__ == "__main__":
     import sys
     base = sys.argv[1] if len(sys.argv) > 1 else "/repo/src/gbigsmiles"
     print(translate_sys(base + "/system.py", base + "/mixture.py"))
     print(translate_sysgen(base + "/system.py"))
+    print(translate_core(base + "/core.py"))
+    print(translate_gen(base + "/stochastic.py"))
+    print(translate_generable(base + "/stochastic.py"))
+    print(translate_distlaw(base + "/distribution.py"))
